@@ -86,9 +86,11 @@ var props = map[string]propCfg{
 	"C05": {Focus: "C05", Arms: []string{"clean"}, Rare: []string{"exhaust"}, RareEvery: 2500, Probes: []string{"c05_reply_checked", "c05_wireid_checked", "c05_exhaust_completed", "c05_exhaust_rollover_seen"}},
 	"C06": {Focus: "C06", Arms: []string{"clean"}, Probes: []string{"c06_query_checked", "c06_reply_checked"}},
 	"C14": {Focus: "C14", Arms: []string{"stale", "faults"}, Probes: []string{"c14_deadline_checked", "c14_liveness_checked", "c14_waiter_on_dead_conn"}},
+	"C15": {Focus: "C15", Arms: []string{"unit", "e2e"}, Probes: []string{"c15_decisions_compared", "c15_e2e_refused", "c15_e2e_admitted"}},
 	"C16": {Focus: "C16", Arms: []string{"clean"}, Probes: []string{"c16_tc_seen", "c16_tcp_outcome_returned", "c16_no_tc"}},
 	"C07": {Focus: "C07", Arms: []string{"ample", "ample", "tiny"}, Probes: []string{"cache_hit", "c07_group_checked", "c07_compared_with_first_relay", "c07_hit_expected"}},
 	"C08": {Focus: "C08", Arms: []string{"clean"}, Probes: []string{"cache_hit", "c08_ttl_checked", "cache_hit_last_quarter"}},
+	"C17": {Focus: "C17", Arms: []string{"addr", "auth", "mtls"}, Probes: []string{"c17a_case_checked", "c17b_case_checked", "c17_mtls_checked", "c17_mtls_unacceptable_client"}},
 	"C18": {Focus: "C18", Arms: []string{"xclose", "rclose", "startfault", "xclose"}, Probes: []string{"c18_upstream_close_checked", "c18_router_close_checked", "c18_call_after_close", "c18_call_inflight_at_close"}},
 	"C19": {Focus: "C19", Arms: []string{"clean"}, Probes: []string{"cache_hit", "cache_hit_last_quarter", "c07_hit_expected"}},
 	"C09": {Focus: "C09", Arms: []string{"clean"}, Probes: []string{"c09_truncated", "c09_fits"}},
